@@ -67,6 +67,8 @@ Update(i, x, w, Hn, Rn, twrn) ==
        /\ SampleOK(new)
        /\ obj' = [obj EXCEPT ![i] = new]
   /\ UNCHANGED un
+\* update with weight 0: ignored, no observable changes (n, emptiness, sample, image)
+UpdateIgnored(i) == i \in Live /\ UNCHANGED vars
 Reset(i) == i \in Live /\ obj' = [obj EXCEPT ![i] = Fresh(@.k)] /\ UNCHANGED un
 Copy(i, j) == i \in Live /\ obj' = (j :> obj[i]) @@ obj /\ UNCHANGED un
 Destroy(i) == i \in Live /\ obj' = [x \in Live \ {i} |-> obj[x]] /\ UNCHANGED un
@@ -111,6 +113,7 @@ Next ==
        \/ i \notin Live /\ \E k \in Ks : New(i, k)
        \/ i \in Live /\ \E x \in NextItem, w \in Wts :
             \E s \in Samples((x :> w) @@ obj[i].stream, obj[i].tot + w) : Update(i, x, w, s[1], s[2], s[3])
+       \/ UpdateIgnored(i)
        \/ Reset(i)
        \/ \E j \in Ids \ {i} : Copy(i, j)
        \/ Destroy(i)
